@@ -2,27 +2,29 @@
 PLAN     TLC enumerates spec/ApiMatrix.tla: one state per applicable cell (entry, group, scalar, storage).
 EXECUTE  per (group, scalar, storage) batch one generated translation unit with one client function per cell, each
          under a `#line 1 "cell_<index>"` marker.  Batches are compiled with -fsyntax-only (quick) or compiled,
-         linked and run (thorough, and a sample of batches in quick).  When a batch does not compile, the cells named
-         by the diagnostics are recorded as nocompile and the batch is compiled again without them (the compiler
-         reports an error inside a template only at its first point of instantiation), bisecting when a failure
-         cannot be attributed.
-VALIDATE nocompile(cell) is never enabled by the model: a violation unless covered by known_findings.json.
-         Recorded executions (result of the entry next to the result of its canonical member on equal operands) are
-         checked by spec/ApiTrace.tla: cell in the matrix, results equal bit for bit."""
-import os, re, json, hashlib, random, concurrent.futures as cf
+         linked and run (thorough; in quick a seed-chosen sample of batches).  When a translation unit does not
+         compile, the cells named by the diagnostics are recorded as nocompile and the remaining cells are compiled
+         again in smaller units (the compiler reports an error inside a template only at its first point of
+         instantiation, so one bad cell can hide others), bisecting when a failure cannot be attributed.
+VALIDATE nocompile(cell) is never enabled by the model: a violation unless covered by known_findings.json
+         (property C19, regex `stratum` on "entry/group/scalar/storage").  Recorded executions (result of the entry
+         next to the result of its canonical member on equal operands) are checked by spec/ApiTrace.tla: the cell is
+         in the matrix and the results are equal bit for bit."""
+import os, re, json, hashlib, random, itertools, concurrent.futures as cf
 import vlib, api_entries as api
 
 HEAVY = {"SGal3": 6, "SE_2_3": 5, "SE3": 5, "B_R2_SO3_R1_SE3": 4, "B_SE2_R3": 3, "SO3": 2, "SE2": 2, "R3": 1, "SO2": 1}
 QUICK_RUN_SAMPLE = 5
 CELL_RE = re.compile(r"\bcell_(\d+)\b")
 ERR_RE = re.compile(r"\berror:|undefined reference")
+SERIAL = itertools.count(1)
 
 def stratum(c): return "%s/%s/%s/%s" % (c["entry"], c["g"], c["sc"], c["k"])
 
 def known_c19(known, st):
     """a recorded finding covers a nocompile cell when its `stratum` regex matches entry/group/scalar/storage"""
     for k in known:
-        if k.get("property") == "C19" and k.get("event", "nocompile") in ("nocompile", "*") and re.search(k.get("stratum", "$^"), st):
+        if k.get("property") == "C19" and "stratum" in k and k.get("event", "nocompile") in ("nocompile", "*") and re.search(k["stratum"], st):
             return k
     return None
 
@@ -43,8 +45,12 @@ def plan():
     cells.sort(key=lambda c: (c["g"], c["sc"], c["k"], c["entry"]))
     return cells, st
 
+def first_error(out):
+    return next((l for l in out.splitlines() if ERR_RE.search(l)), out[-300:]).strip()[:400]
+
 def attribute(out):
-    """compiler output -> {cell index: first error message of a diagnostic that names the cell}"""
+    """compiler output -> {cell index: first error message of a diagnostic that names the cell} (warnings are off,
+    so a cell is named only by an error inside it or by the instantiation trace of an error it requires)"""
     diag, pending = {}, []
     for line in out.splitlines():
         ids = [int(i) for i in CELL_RE.findall(line)]
@@ -58,80 +64,103 @@ def attribute(out):
 class Batch:
     def __init__(self, key, idx, cells, wd):
         self.key, self.idx, self.cells, self.wd = key, idx, cells, wd      # idx: cell indices of this batch
-        self.bad = {}                # cell index -> diagnostic
-        self.compiles = 0; self.events = []; self.ran = False; self.crash = None
         self.tag = "c19_%s_%s_%s" % key
+        self.ok, self.bad = [], {}                # compiled cells; cell index -> diagnostic
+        self.binary, self.built = None, None      # executable and the cells it contains
+        self.prelude_ok, self.unattributed, self.rebuilt = None, [], False
+        self.compiles = 0; self.events = []; self.crash = None
 
     def source(self, live, run):
         s = api.prelude(*self.key) + "".join(api.cell_function(i, self.cells[i]["entry"], self.cells[i]["canon"]) for i in live)
         return s + (api.main_function([(i, self.cells[i]["entry"], self.cells[i]["canon"]) for i in live]) if run else "")
 
+    def cache_path(self, src):
+        key = hashlib.sha256((vlib.repo_hash() + src + " ".join(vlib.BASE_FLAGS)).encode()).hexdigest()[:24]
+        return os.path.join(vlib.CACHE, "bin", key, self.tag)
+
+    def cached(self):
+        return os.path.exists(self.cache_path(self.source(self.idx, True)))
+
     def gxx(self, live, run):
-        """compile the cells `live`; returns (ok, output, binary)"""
+        """compile the cells `live` (-fsyntax-only, or a cached executable when `run`); returns (ok, output, binary)"""
         self.compiles += 1
         src = self.source(live, run)
-        p = os.path.join(self.wd, "%s_%d.cpp" % (self.tag, self.compiles))
+        p = os.path.join(self.wd, "%s_%d.cpp" % (self.tag, next(SERIAL)))
         with open(p, "w") as f: f.write(src)
         if not run:
             r = vlib.sh(["g++"] + [f for f in vlib.BASE_FLAGS if f != "-O1"] + ["-fsyntax-only", p])
             return r.returncode == 0, r.stdout, None
-        key = hashlib.sha256((vlib.repo_hash() + src + " ".join(vlib.BASE_FLAGS)).encode()).hexdigest()[:24]
-        d = os.path.join(vlib.CACHE, "bin", key); out = os.path.join(d, self.tag)
+        out = self.cache_path(src)
         if os.path.exists(out): return True, "", out
-        os.makedirs(d, exist_ok=True)
-        r = vlib.sh(["g++"] + vlib.BASE_FLAGS + ["-DC19_RUN", p, "-o", out + ".tmp"])
+        os.makedirs(os.path.dirname(out), exist_ok=True)
+        tmp = "%s.%d.tmp" % (out, os.getpid())
+        r = vlib.sh(["g++"] + vlib.BASE_FLAGS + ["-DC19_RUN", p, "-o", tmp])
         if r.returncode != 0: return False, r.stdout, None
-        os.rename(out + ".tmp", out)
+        os.rename(tmp, out)
         return True, r.stdout, out
 
-    def cached(self):
-        src = self.source(self.idx, True)
-        key = hashlib.sha256((vlib.repo_hash() + src + " ".join(vlib.BASE_FLAGS)).encode()).hexdigest()[:24]
-        return os.path.exists(os.path.join(vlib.CACHE, "bin", key, self.tag))
+    def execute(self, seed):
+        outp = os.path.join(self.wd, self.tag + ".ndjson")
+        r = vlib.sh(["timeout", "300", self.binary, outp, str(seed)])
+        self.events = open(outp).read().splitlines() if os.path.exists(outp) else []
+        if r.returncode != 0 or len(self.events) != len(self.built):
+            self.crash = "rc=%d, %d of %d cells recorded, last: %s; %s" % (r.returncode, len(self.events), len(self.built),
+                         self.events[-1][:120] if self.events else "-", r.stdout[-300:])
 
-    def bisect(self, live, run, out):
-        if len(live) == 1:
-            self.bad[live[0]] = (attribute(out).get(live[0]) or next((l for l in out.splitlines() if ERR_RE.search(l)), out[-300:])).strip()[:400]
-            return
-        for half in (live[:len(live) // 2], live[len(live) // 2:]):
-            ok, o, _ = self.gxx(half, run)
-            if not ok: self.bisect(half, run, o)
+def chunks(xs, n):
+    n = max(1, min(n, len(xs) // 12 or 1))
+    return [xs[i::n] for i in range(n)] if len(xs) > 4 else [[x] for x in xs]
 
-    def process(self, run, seed):
-        live = list(self.idx); binary = None
-        while live:
-            ok, out, binary = self.gxx(live, run)
-            if ok: break
-            sus = {i: d for i, d in attribute(out).items() if i in live}
-            if not sus:
-                ok0, out0, _ = self.gxx([], run)          # the batch's prelude alone
-                if not ok0:
-                    first = next((l for l in out0.splitlines() if ERR_RE.search(l)), out0[-300:]).strip()[:400]
-                    for i in live: self.bad[i] = "prelude of the batch does not compile: " + first
-                else:
-                    self.bisect(live, run, out)
-                live = [i for i in live if i not in self.bad]
-                if not ok0: live = []
-                continue
-            self.bad.update(sus)
-            live = [i for i in live if i not in sus]
-        self.ok = live
-        if run and binary and live:
-            outp = os.path.join(self.wd, self.tag + ".ndjson")
-            r = vlib.sh(["timeout", "300", binary, outp, str(seed)])
-            self.events = open(outp).read().splitlines() if os.path.exists(outp) else []
-            self.ran = True
-            if r.returncode != 0 or len(self.events) != len(live):
-                self.crash = "rc=%d, %d of %d cells recorded, last: %s; %s" % (r.returncode, len(self.events), len(live),
-                             self.events[-1][:120] if self.events else "-", r.stdout[-300:])
-        return self
+def compile_all(batches, runs, known):
+    """rounds of independent compiler jobs (batch, cells, run?) until every cell is either compiled or attributed"""
+    jobs = []
+    for b in batches:
+        kn = [i for i in b.idx if known_c19(known, stratum(b.cells[i]))]       # expected not to compile: kept apart
+        jobs.append((b, [i for i in b.idx if i not in kn], b.key in runs))
+        if kn: jobs.append((b, kn, False))
+    while jobs:
+        jobs.sort(key=lambda j: -(HEAVY.get(j[0].key[0], 3) * (3 if j[2] else 1) * (len(j[1]) + 40)))      # longest first
+        with cf.ThreadPoolExecutor(vlib.NCPU) as ex:
+            results = list(ex.map(lambda j: (j, j[0].gxx(j[1], j[2])), jobs))
+        jobs = []
+        for (b, live, run), (ok, out, binary) in results:
+            halves = lambda u: [(b, h, False) for h in (u[:len(u) // 2], u[len(u) // 2:])]
+            if not live:                                       # probe: the batch's prelude alone
+                b.prelude_ok = ok
+                for u, o in b.unattributed:
+                    if not ok: b.bad.update({i: "prelude of the batch does not compile: " + first_error(out) for i in u})
+                    elif len(u) == 1: b.bad[u[0]] = first_error(o)
+                    else: jobs += halves(u)                    # bisect
+                b.unattributed = []
+            elif ok:
+                b.ok += live
+                if run: b.binary, b.built = binary, live
+            else:
+                sus = {i: d for i, d in attribute(out).items() if i in live}
+                if sus:
+                    b.bad.update(sus)
+                    jobs += [(b, c, False) for c in chunks([i for i in live if i not in sus], 3)]
+                elif run:                                      # not attributable (link step, main): decide the cells by syntax
+                    b.crash = "build failed: " + first_error(out); b.rebuilt = True
+                    jobs.append((b, live, False))
+                elif b.prelude_ok is None:
+                    if not b.unattributed: jobs.append((b, [], False))
+                    b.unattributed.append((live, out))
+                elif not b.prelude_ok: b.bad.update({i: "prelude of the batch does not compile" for i in live})
+                elif len(live) == 1: b.bad[live[0]] = first_error(out)
+                else: jobs += halves(live)
+        if not jobs:   # executables for the batches to run whose first build failed: the cells that survived
+            for b in batches:
+                if b.key in runs and b.ok and (b.built is None or sorted(b.built) != sorted(b.ok)) and not b.rebuilt:
+                    b.rebuilt = True; ok = sorted(b.ok); b.ok = []
+                    jobs.append((b, ok, True))
 
 def run(tier, seed):
     rep = vlib.Report("C19", tier, seed)
     rep.assumptions = ["the compiler (g++ 12, -std=c++11, system Eigen 3.4) is the oracle for 'compiles and links'; the model contributes the enumeration of the matrix, the applicability rules and the forwarding oracle",
                        "const views are declared `const Eigen::Map<const G>` as in docs/pages/cpp/On-the-use-with-Ceres.md; algorithms over containers take std::vector of owning objects; static helpers are called on the owning type",
                        "forwarding is decided on one random operand tuple per batch (seeded), bit for bit; Random()/setRandom() are compared under an equal std::srand seed",
-                       "quick: -fsyntax-only for every cell, compile+link+run for a seed-chosen sample of batches (and for batches whose binary is already in the content-addressed cache); thorough: compile+link+run for every cell",
+                       "quick: -fsyntax-only for every cell, compile+link+run for a seed-chosen sample of batches (and for batches whose executable is already in the content-addressed cache); thorough: compile+link+run for every cell",
                        "Python bindings are outside the matrix"]
     cells, st = plan()
     rep.states += st[0]; rep.transitions += st[1]; rep.exhaustive = True
@@ -143,22 +172,25 @@ def run(tier, seed):
         runs = set(b.key for b in batches)
     else:
         runs = set(b.key for b in random.Random(seed).sample(batches, QUICK_RUN_SAMPLE)) | set(b.key for b in batches if b.cached())
-    order = sorted(batches, key=lambda b: -(HEAVY.get(b.key[0], 3) * (3 if b.key in runs else 1)))       # longest first
+    compile_all(batches, runs, rep.known)
+    todo = [b for b in batches if b.binary and b.built]
     with cf.ThreadPoolExecutor(vlib.NCPU) as ex:
-        list(ex.map(lambda b: b.process(b.key in runs, seed), order))
+        list(ex.map(lambda b: b.execute(seed), todo))
     # ---- verdicts: nocompile
     ncompiled = 0; evs = []
     for b in batches:
+        if sorted(b.ok + list(b.bad)) != sorted(b.idx):
+            raise vlib.ModelError("batch %s: %d cells neither compiled nor attributed" % (b.tag, len(b.idx) - len(b.ok) - len(b.bad)))
         ncompiled += len(b.ok)
         for i in b.ok: rep.cells.add((cells[i]["entry"], cells[i]["g"], cells[i]["sc"], cells[i]["k"]))
         for i, d in sorted(b.bad.items()):
             c = dict(cells[i]); c.update(e="nocompile", diag=d, st=stratum(cells[i]))
             k = known_c19(rep.known, c["st"])
             if k is not None:
-                h = rep.known_hits.setdefault(k["id"], [0, 0, k]); h[0] += 1; h[1] = vlib.SAT
+                h = rep.known_hits.setdefault(k["id"], [0, 0, k]); h[0] += 1
             else:
-                rep.violations.append(("nocompile %s: %s" % (c["st"], d), json.dumps(c, sort_keys=True)))
-        if b.ran: rep.traces += 1; evs += b.events
+                rep.violations.append(("nocompile %s: %s" % (c["st"], d[:260]), json.dumps(c, sort_keys=True)))
+        if b in todo: rep.traces += 1; evs += b.events
         if b.crash:
             rep.violations.append(("crash %s/%s/%s: %s" % (b.key + (b.crash,)), json.dumps(dict(e="crash", g=b.key[0], sc=b.key[1], k=b.key[2], diag=b.crash))))
     # ---- verdicts: forwarding (trace validation)
